@@ -157,3 +157,9 @@ Proof.
     try (destruct k; try congruence; cbn [same_comp]; sysf; reflexivity).
   apply reg_write_comp; [exact Hk|]. intros ->. apply Hl. reflexivity.
 Qed.
+
+Lemma handler_eq_lcdc (h : handler) : {h = HReg R_LCDC} + {h <> HReg R_LCDC}.
+Proof.
+  destruct h as [| | | |r| | | |]; try (right; discriminate).
+  destruct r; try (right; discriminate). left; reflexivity.
+Qed.
